@@ -699,7 +699,24 @@ pub fn generate_graph(stream: &str, seed: u64, n: usize, emit: &mut dyn FnMut(St
 		let mut unique = true;
 		if stream == "graph-wild" {
 			// arbitrary damage through the public builder API
-			match rng.gen_range(0..6) {
+			match rng.gen_range(0..8) {
+				6 | 7 => {
+					// a node nothing refers to (as left behind by `nodes_mut().pop()` / edits),
+					// holding a key that is exactly one past the end, further out, or valid
+					let len = raw.len() + 1;
+					let k = match rng.gen_range(0..4) {
+						0 | 1 => len,
+						2 => len + rng.gen_range(1..3),
+						_ => rng.gen_range(0..len),
+					};
+					let reg = match rng.gen_range(0..4) {
+						0 => Reg::Array(k),
+						1 => Reg::Map(k),
+						2 => Reg::Union(vec![0, k]),
+						_ => Reg::Record(format!("Orphan{i}"), vec![("f".into(), k)]),
+					};
+					raw.push(RawNode { reg, logical: None });
+				}
 				0 => {
 					// dangling key
 					let len = raw.len();
